@@ -341,9 +341,49 @@ def mixed_pass(ctx):
                 return
 
 
+def generic_super_pass(ctx):
+    """a class that inherits through a *generic* supertype (an EGenericType whose classifier is another class, attached the
+    way the loaders attach it: the generic type first, its classifier afterwards), directly and through a subclass: every
+    feature `eAllStructuralFeatures()` lists is found by name, and the by-name and by-feature views of an instance agree"""
+    from pyecore import ecore as E
+    for k in range(8 if ctx.quick() else 60):
+        rng = common.sub_rng(ctx.seed, 'C19', 'generic-super', k)
+        Base, Mid, D, Sub = E.EClass('Base'), E.EClass('Mid'), E.EClass('D'), E.EClass('Sub')
+        Base.eStructuralFeatures.extend([E.EAttribute('label', E.EString), E.EReference('others', Base, upper=-1)])
+        Mid.eStructuralFeatures.append(E.EAttribute('size', E.EInt))
+        if k % 2:
+            Mid.eSuperTypes.append(Base)
+        for cls, target in ((D, Mid if k % 2 else Base),):
+            gt = E.EGenericType()
+            cls.eGenericSuperTypes.append(gt)
+            gt.eClassifier = target
+        Sub.eSuperTypes.append(D)
+        D.eStructuralFeatures.append(E.EAttribute('own', E.EString))
+        ctx.evaluations += 1
+        ctx.nontriv(('generic-super', k))
+        for cls in (D, Sub):
+            o = cls()
+            for f in cls.eAllStructuralFeatures():
+                found = cls.findEStructuralFeature(f.name)
+                problem = None
+                if found is not f:
+                    problem = f'findEStructuralFeature({f.name!r}) gives {found}, eAllStructuralFeatures() lists the feature'
+                elif not f.many:
+                    try:
+                        o.eSet(f, 'v' if f.eType is E.EString else 3)
+                        if o.eIsSet(f.name) != o.eIsSet(f) or o.eGet(f.name) != o.eGet(f):
+                            problem = f'{f.name}: eIsSet / eGet by name and by feature disagree'
+                    except Exception as e:
+                        problem = f'{f.name}: {type(e).__name__}: {e}'
+                if problem:
+                    ctx.violate({'clause': 'generic-supertype'}, f'{cls.name} (inheriting through a generic supertype): {problem}', {'generic_super': k})
+                    return
+
+
 def run(ctx):
     common.use_repo()
     mixed_pass(ctx)
+    generic_super_pass(ctx)
     n = 200 if ctx.quick() else 3000
     nops = 25 if ctx.quick() else 40
     ctx.rule = (f'{n} histories (<= {nops} ops) over containment-centred and random metamodels; after every call, for every object: '
